@@ -339,3 +339,34 @@ def special_lattices(rec, rng):
         if ok:
             okb = all(int(hl.lat2mps_idx(hl.mps2lat_idx(i))) == i for i in range(-6, 12))
             rec.check(okb, 'HelicalLattice:index-maps', 'not inverse on [-6, 12)')
+    # helical lattices: the couplings are those of the one-dimensional helix - cell n couples to cell n + dx0*Ly + dx1 -
+    # each exactly once with 0 <= min(i, j) < N_sites, whether or not a strength is passed
+    for cls, Lx, Ly in [(Lt.Square, 2, 3), (Lt.Square, 4, 2), (Lt.Honeycomb, 2, 2), (Lt.Kagome, 3, 2)]:
+        for ncell in [n for n in (1, 2, 3, 4, 6) if n <= Lx * Ly and (Lx * Ly) % n == 0]:
+            rec.begin(f'C19 HelicalLattice {cls.__name__}({Lx},{Ly}) N_unit_cells={ncell} couplings')
+            reg = cls(Lx, Ly, s, order='Cstyle', bc=['periodic', -1], bc_MPS='infinite')
+            ok, hl = rec.guarded('HelicalLattice:exception', lambda: Lt.HelicalLattice(reg, ncell), None)
+            if not ok:
+                continue
+            rec.case(('helical-couplings', cls.__name__, Lx, Ly, ncell))
+            Lu = len(hl.unit_cell)
+            pos = {int(u): k for k, u in enumerate(hl.order[:Lu, -1])}       # place of u inside a cell along the helix
+            N = hl.N_sites
+            for u1, u2 in itertools.product(range(Lu), repeat=2):
+                for dx in itertools.product(range(-2, 3), repeat=2):
+                    if dx == (0, 0) and u1 == u2:
+                        continue
+                    d = dx[0] * Ly + dx[1]
+                    exp = set()
+                    for n in range(-4 * Lx * Ly, 4 * Lx * Ly):
+                        i, j = n * Lu + pos[u1], (n + d) * Lu + pos[u2]
+                        if 0 <= min(i, j) < N:
+                            exp.add((i, j))
+                    inp = {'lattice': f'{cls.__name__}({Lx},{Ly})', 'N_unit_cells': ncell, 'u1': u1, 'u2': u2, 'dx': list(dx)}
+                    for tag, call in (('strength=None', lambda: hl.possible_couplings(u1, u2, dx)[:2]),
+                                      ('strength=1', lambda: hl.possible_couplings(u1, u2, dx, 1.0)[:2])):
+                        okc, res = rec.guarded(f'HelicalLattice.possible_couplings[{tag}]:exception', call, inp)
+                        if okc:
+                            got = sorted(zip(np.asarray(res[0], int).tolist(), np.asarray(res[1], int).tolist()))
+                            rec.check(got == sorted(exp), f'HelicalLattice.possible_couplings[{tag}]:pairs',
+                                      f'{got} vs helix enumeration {sorted(exp)}', inp)
